@@ -16,6 +16,16 @@ func (in *Interp) initDepGlobal(g *ssa.Global, p *Value) {
 		*p = in.errorValue("unexpected EOF")
 	case "io.ErrShortBuffer":
 		*p = in.errorValue("short buffer")
+	case "encoding/base64.StdEncoding":
+		in.b64EncodingGlobal(p, "std")
+	case "encoding/base64.RawStdEncoding":
+		in.b64EncodingGlobal(p, "raw")
+	case "encoding/base64.URLEncoding":
+		in.b64EncodingGlobal(p, "url")
+	case "encoding/base64.RawURLEncoding":
+		in.b64EncodingGlobal(p, "rawurl")
+	case "database/sql.ErrNoRows":
+		*p = in.errorValue("sql: no rows in result set")
 	case "context.Canceled":
 		*p = in.errorValue("context canceled")
 	default:
